@@ -32,7 +32,11 @@ FORMS = {
     'models-element': '<Foo v-models=<b/> />',
     'on-ns': '<div on:click={{v1}} on:update-value={{v2}}/>', 'nativeon-ns': '<Foo nativeOn:key-up={{v1}} on:after-leave/>', 'on-ns-member': '<v1.a.b on:x-y={{v2}}/>', 'on-obj-keys': '<div on={{{{"a-b": v1, c: v2}}}}/>',
     'model-sum': '<input v-model={{v1 + v2}}/>', 'model-call': '<Foo v-model={{f1()}}/>', 'model-lit': '<Foo v-model={{1}}/>', 'model-arrow': '<input v-model={{() => v1}}/>', 'model-cond': '<Foo v-model={{v1 ? v2 : v3}}/>',
-    'model-this': '<Foo v-model={{this}}/>', 'model-optchain': '<Foo v-model={{v1?.x}}/>', 'models-sum': '<Foo v-models={{[[v1 + v2, "a"]]}}/>', 'model-paren-member': '<Foo v-model={{(v1.x)}}/>', 'model-index': '<Foo v-model={{v1[v2]}}/>', 'arg-nonstr': '<div v-foo:arg={{v1}}/>', 'ns-dir-suffix': '<div v-foo:a-b_c-d={{v1}}/>',
+    'model-this': '<Foo v-model={{this}}/>', 'model-optchain': '<Foo v-model={{v1?.x}}/>',
+    'model-optchain-tail': '<input v-model={{v1?.x.y}}/>', 'model-optchain-index': '<Foo v-model={{v1.r?.[v2].value}}/>', 'model-optchain-array': '<Foo v-model={{[v1?.f.t, "q", ["trim"]]}}/>', 'model-optcall': '<Foo v-model={{v1?.x.get()}}/>',
+    'model-optchain-paren': '<input v-model={{(v1?.x.y)}}/>', 'models-optchain': '<Foo v-models={{[[v1?.a.b, "a"]]}}/>', 'model-update': '<Foo v-model={{v1++}}/>', 'model-assign': '<input v-model={{v1 = v2}}/>', 'model-new': '<Foo v-model={{new v1()}}/>',
+    'model-tagged': '<Foo v-model={{v1`t`}}/>', 'model-unary': '<input v-model={{!v1}}/>', 'model-seq': '<Foo v-model={{(v1, v2)}}/>', 'model-tpl': '<Foo v-model={{`a${{v1}}`}}/>', 'model-fn': '<Foo v-model={{function () {{}}}}/>',
+    'model-member-call-member': '<Foo v-model={{f1().x}}/>', 'models-sum': '<Foo v-models={{[[v1 + v2, "a"]]}}/>', 'model-paren-member': '<Foo v-model={{(v1.x)}}/>', 'model-index': '<Foo v-model={{v1[v2]}}/>', 'arg-nonstr': '<div v-foo:arg={{v1}}/>', 'ns-dir-suffix': '<div v-foo:a-b_c-d={{v1}}/>',
 }
 
 
